@@ -50,4 +50,16 @@ CHECKS.update({
             "note": "Trusted: process exit status as crash detector; default stack sizes of this machine. Cyclic graphs with two references per program are not generated (2^32 steps to reach the depth error through absorbing constructs).",
             "technique": TV},
 })
+CHECKS.update({
+    "C02": {"text": "The complete set of flat sequences of <= 2 (thorough: 3) binary/ternary operators with unary prefixes and postfixes - ill-formed ones included - and generated deeper trees in four renderings are compiled; "
+                    "TLC parses the real token stream with Grammar.tla (one operator per precedence level, left-leaning, right-nested ?:) and requires the exposed syntax tree to be exactly that tree, accept/reject to agree with the grammar, "
+                    "the generator's intended tree to come back under minimal/full/random parenthesisation and whitespace, and all renderings to evaluate to the outcome Eval.tla allows.",
+            "note": "Trusted: the harness' projection of the AST (wrapper nodes collapsed, call arguments ordered by position) and the tokens of the real tokenizer.",
+            "technique": "TLA+ grammar (spec/Grammar.tla) evaluated by TLC on recorded token streams and compared with the recorded syntax trees (spec/Trace_Parse.tla); evaluation equivalence through spec/Trace_Eval.tla"},
+    "C18": {"text": "For every recorded compilation TLC recomputes the span of every node from the token spans (first token start to last token end, as Grammar.tla defines it) and requires the exposed tree to carry exactly those spans; "
+                    "token spans must be increasing, non-overlapping, inside the source and re-lex to the same token; sampled spanned sub-texts compiled on their own must give the same subtree; "
+                    "syntax errors of corrupted variants must point inside the source. Sources are rendered with random spaces, tabs, newlines and multi-byte characters.",
+            "note": "Trusted: line/column to character offset arithmetic in the harness (re-checked by TLC's InSource on the recorded code points).",
+            "technique": "TLA+ grammar with spans (spec/Grammar.tla) + TLC trace validation of recorded tokens, trees and error locations (spec/Trace_Parse.tla)"},
+})
 NOT_YET = {}
